@@ -56,10 +56,12 @@ PROPS = {
                         'composition of unit interleaving and loops across hal objects is argued, not machine-checked'],
     },
     'C07': {
-        'level_text': "Bus-cache invariant and unit interleaving proved completely, bursts bounded: Kani proves on the macro-expanded set_value of Generic8BitBus and Generic16BitBus (loop-free) the induction step of `last == Some(v) => the pins show v` for every previous state, every value and every single pin-write failure (cache cleared on failure, nothing written after the failing pin), the base case (new bus has no cache), that send_word latches exactly the word at the rising WR edge from any state satisfying the invariant, and is_same's contract for N in 0..=3. Sequences (send_command with <= 3 parameters, 2 pixels x 2 words, repeated pixel count <= 2) are bounded stand-ins.",
-        'level_note': "The loops of ParallelInterface::{send_command, send_pixels, send_repeated_pixel} are not yet under Verus proof (bounded Kani only): word order and strobe counts for unbounded bursts, and the `count * N` product, are NOT proved here.",
+        'level_text': "Unbounded proof of the bursts + complete proof of the pin level. Verus verifies the real loops of ParallelInterface::{send_word, send_command, send_pixels, send_repeated_pixel} (generic bus / pins, any finite lawful pixel stream, any count, any N) against per-object ghost logs: one write strobe ([low, high] on WR) and one bus value per word, in order (instruction word, parameter words, pixel words); DC sees [low, high] only around the instruction; a repeated all-equal-word pixel sets the bus once and issues exactly count*N strobes with the bus untouched (so the latched value stays the word), otherwise the words are sent in order; the strobe count cannot overflow; all loops terminate. Kani proves on the macro-expanded set_value of Generic8BitBus and Generic16BitBus (loop-free) the induction step of `last == Some(v) => the pins show v` for every previous state, every value and every single pin-write failure (cache cleared on failure, nothing written after the failing pin), the base case (new bus has no cache), that send_word latches exactly the word at the rising WR edge from any state satisfying the invariant, and is_same's contract for N in 0..=3. Sequences (send_command with <= 3 parameters, 2 pixels x 2 words, repeated pixel count <= 2) are bounded stand-ins.",
+        'level_note': "What OutputBus::set_value does to the pins is decided by Kani (the macro-generated bus types stay outside Verus; Verus sees the trait contract 'one log entry per call'). The value latched at a rising WR edge = last bus value: unit interleaving of send_word by Kani, bursts by Verus, composition argued (DESIGN.md 3.6). Assumed core contracts: array by-value iterator, Range+Map constant stream (A-map-const), From<u8> for the word type (values of command/parameter words are exact only where obeys_from_spec()).",
         'technique': 'Kani complete induction-step harnesses on loop-free units; bounded harnesses for bursts',
-        'kani': {'files': ['parallel.rs'], 'groups': [{'quick': ['c07_set_value_step_8', 'c07_set_value_step_16', 'c07_new_bus_has_no_cache', 'c07_send_word_latches_word', 'c07_is_same_contract',
+'verus': {'cfgs': ['default'], 'fns': [r'^interface::parallel::ParallelInterface::(send_word|send_command|send_pixels|send_repeated_pixel|new|release)$',
+                                               r'^interface::parallel::lemma_(strobes_add|bus_values_push)$', r'^vf::lemma_(flat_add|flat_const|skip_step)$', r'^vf::(array_into_iter|into_iter|repeat_n)$']},
+        'kani': {'files': ['parallel.rs'], 'nonterm': ['c07_repeat_count_no_overflow'], 'groups': [{'quick': ['c07_repeat_count_no_overflow', 'c07_set_value_step_8', 'c07_set_value_step_16', 'c07_new_bus_has_no_cache', 'c07_send_word_latches_word', 'c07_is_same_contract',
                                                       'c07_send_command_bounded', 'c07_send_pixels_bounded'],
                              'thorough': ['c07_send_repeated_pixel_bounded'],
                              'bounded': {'c07_send_command_bounded': '<= 3 parameter bytes', 'c07_send_pixels_bounded': '2 pixels x 2 words', 'c07_send_repeated_pixel_bounded': 'count <= 2, N = 2'}, 'jobs': 8}]},
